@@ -298,6 +298,7 @@ def real_tls_coalescing(res, W):
         return
     try:
         for shape in ("separate", "coalesced", "partial"):
+          for attempt in range(3):
             def script(srv, conn, resp, shape=shape):
                 if shape == "separate":
                     conn.sendall(resp)
@@ -315,23 +316,27 @@ def real_tls_coalescing(res, W):
             srv.start()
             got, exc = [], None
             try:
-                w = W.create_connection(f"wss://localhost:{srv.port}/", timeout=4, sslopt={"ca_certs": P["caA"]})
+                w = W.create_connection(f"wss://localhost:{srv.port}/", timeout=8, sslopt={"ca_certs": P["caA"]})
                 got.append(w.recv())
                 got.append(w.recv())
                 time.sleep(0.1)
                 w.shutdown()
             except Exception as e:  # noqa
                 exc = e
-            srv.join(8)
+            srv.join(12)
             pongs = [f.payload for f in R.decode_all(bytes(srv.client_bytes))[0] if f.opcode == R.PONG]
-            res.case(("real-tls", shape), nontrivial=True)
-            res.count("real_tls_runs")
             case = {"tag": ("real-tls", shape), "delivery": shape}
             if isinstance(exc, (TimeoutError, W.WebSocketTimeoutException)) and shape == "separate":
                 res.notes["real_tls_coalescing:" + shape] = "wall-clock timeout on the baseline shape: skipped"
                 return
-            if got != ["first", "second"] or pongs != [b"pg"]:
-                res.violation("segmentation-dependent:tls-record", f"real TLS, {shape} delivery: received {got}, pongs seen by the server {pongs}, exception {exc!r}",
-                              case, seg_kind="tls-record-" + shape)
+            ok = got == ["first", "second"] and pongs == [b"pg"]
+            if ok or attempt == 2:
+                # wall-clock runs: only a failure that reproduced three times in a row is reported
+                res.case(("real-tls", shape), nontrivial=True)
+                res.count("real_tls_runs")
+                if not ok:
+                    res.violation("segmentation-dependent:tls-record", f"real TLS, {shape} delivery (3 attempts): received {got}, pongs seen by the server {pongs}, exception {exc!r}",
+                                  case, seg_kind="tls-record-" + shape)
+                break
     finally:
         shutil.rmtree(d, ignore_errors=True)
